@@ -25,6 +25,9 @@ RULE = ("One case = one history against a fresh ConfigManager: a registry of 2-7
         "In 30% of the cases the manager is first brought up from a startup file (real LoadStartupConfig/LoadYAML) that "
         "carries the registered plugin namespace verif.c13 (typed pointer in cfg.Plugins, or the production variant "
         "running = startupConfig) and the registry has handlers on its leaves. "
+        "Further recipes for the initial running configuration: guard (PPPoE group, MSS validation), deep 0|1 (hidden "
+        "json:\"-\" flags, autoconfig-derived subinterface, MSS clamp spec, subscriber groups that do / do not collide). "
+        "Fault plans also cover: reload fails after the daemon took the candidate (R), k-th Rollback call fails (q<k>). "
         "Named boundary classes are emitted first (every failure point x position, retry after failure, "
         "set-after-failed-persist, empty diff, dependency satisfied from running only, uint16/uint32 wrap). "
         "Concurrent cases (1 in 6): 2-3 goroutines race create/set/commit/close/read on their own sessions; the driver "
